@@ -186,7 +186,7 @@ mod properties {
                 }
                 PropertyType::SubscriptionIdentifier => {
                     let (id_len, id) = length_in_frame(bytes.iter())?;
-                    cursor += 1 + id_len;
+                    cursor += id_len;
                     bytes.advance(id_len);
                     subscription_identifiers.push(id);
                 }
